@@ -211,6 +211,23 @@ def real_frameseq(line):
                     f.checksum.add(0x55)       # the frame's checksum member is public; somebody used it
                     f.checksum.add(0xaa)
                 f.data = bytearray(pl)
+            elif mode == 'D':
+                # a decode that is refused (payload too short for the fields) and an encode that is refused (a value that does not fit),
+                # both caught by the caller; the fields are set up anew as the dynamic messages do, and the same object is used again
+                from ubxlib.types import U4, Fields
+                f.f.add(U4('q'))
+                f.data = bytearray(b'\x01')
+                try:
+                    f.unpack()
+                except Exception:
+                    pass
+                f.f.q = 1 << 40
+                try:
+                    f.pack()
+                except Exception:
+                    pass
+                f.f = Fields()
+                f.data = bytearray(pl)
             elif mode == 'I':
                 f.data[:] = pl
             elif mode == 'X':          # in place, one byte at a time
@@ -338,6 +355,8 @@ def real_frameobs(line):
 
 def model_line_frame(line):
     p = line.split('|')
+    if p[0] == 'frameseq':
+        return line.replace('|D:', '|N:').replace(';D:', ';N:')      # (a refused decode / encode in between: to the model, a payload replaced)
     return '|'.join(['frame'] + p[1:4]) if p[0] == 'frameobs' else line
 
 
@@ -468,7 +487,7 @@ def gen_frame(rng, n, profile):
                 pass                                                                            # unchanged
             else:
                 pl = bytes(rng.randrange(256) for _ in range(rng.choice([0, 1, 12, 300])))
-            steps.append(rng.choice(['N', 'I', 'I', 'X', 'N', 'I', 'I', 'X', 'B', 'C']) + ':' + pl.hex())
+            steps.append(rng.choice(['N', 'I', 'I', 'X', 'N', 'I', 'I', 'X', 'B', 'C', 'D']) + ':' + pl.hex())
         yield f'frameseq|{rng.randrange(256)}|{rng.randrange(256)}|' + ';'.join(steps)
 
 
@@ -811,6 +830,27 @@ def real_fieldsagain(line):
     how = int(how)
     cls = find_class(name)
     try:
+        if how & 8:
+            # not the object but the caller's receive buffer is used again: a frame is decoded from it, its holder edits a field (and
+            # does not encode), the buffer is overwritten in place with the next payload - the same bytes, now and then - and decoded
+            # again: a frame of its own, holding what the buffer holds now
+            buf = bytearray(bytes.fromhex(h1))
+            f = cls.construct(buf)
+            for it in ordered_items(f):
+                if isinstance(it.value, int) and not isinstance(it, Padding):
+                    it.value ^= 1
+                    break
+            if how & 2:
+                str(f)
+            nxt = bytes.fromhex(h2)
+            if len(nxt) == len(buf) and how & 1:
+                buf[:] = nxt
+            else:
+                buf = bytearray(nxt)
+            g = cls.construct(buf)
+            if g is f:
+                return 'THE-EARLIER-FRAME-OBJECT-RETURNED'
+            return describe_frame(g)
         f = cls.construct(bytearray(bytes.fromhex(h1)))
         if how & 2:
             f.pack()
@@ -979,6 +1019,10 @@ def gen_fields(rng, n, profile):
             pl, pl2 = payload_for(rng, name), payload_for(rng, name)
             if wellformed(name, pl):
                 yield f'fieldsagain|{name}|{pl.hex()}|{pl2.hex()}|{how}'
+        for how in (8, 9, 10, 11):
+            pl, pl2 = payload_for(rng, name), payload_for(rng, name)
+            if wellformed(name, pl):
+                yield f'fieldsagain|{name}|{pl.hex()}|{(pl if how in (8, 9) or not wellformed(name, pl2) else pl2).hex()}|{how}'
 
 
 # ---- a user's item type ---------------------------------------------------------------------------------
@@ -1643,6 +1687,13 @@ def gen_key(rng, n, profile):
                 key = rng.choice(keys)
                 bits = {1: 1, 2: 8, 3: 16, 4: 32, 5: 64}[(key >> 28) & 7]
                 ops.append('U' + (struct.pack('<I', key) + bytes(rng.choice([0, 1]) if bits == 1 else rng.randrange(256) for _ in range(WIDTH[bits]))).hex())
+                if rng.random() < 0.35:
+                    # … a decode that is refused after the key id was read (value bytes missing, no such size, a 1-bit value of 2), and
+                    # the object goes on being used
+                    good = bytes.fromhex(ops.pop()[1:])
+                    bad = rng.choice([good[:rng.randrange(4, len(good))], struct.pack('<I', (key & 0x0fffffff) | (rng.choice([0, 6, 7]) << 28)) + good[4:],
+                                      struct.pack('<I', (key & 0x0fffffff) | (1 << 28)) + b'\x02'])
+                    ops.extend(['U' + bad.hex(), 'U' + good.hex()])
             elif k < 0.65:
                 ops.append(f'G{rng.choice([0, 6, 0x21, 0xff])}')
             elif k < 0.75:
@@ -1654,6 +1705,14 @@ def gen_key(rng, n, profile):
             else:
                 ops.append(f'Z{rng.randrange(2)}')
         yield 'keyseq|' + ';'.join(ops + ['P'])
+    # a refused decode, then a good one into the same object, for every way of refusing and every width
+    for key in keys[:12] + keys[-6:]:
+        bits = {1: 1, 2: 8, 3: 16, 4: 32, 5: 64}[(key >> 28) & 7]
+        good = struct.pack('<I', key) + bytes((1 if bits == 1 else 0x80 | j) for j in range(WIDTH[bits]))
+        for bad in (good[:4], good[:-1] if len(good) > 5 else good[:4], struct.pack('<I', key & 0x0fffffff) + good[4:], struct.pack('<I', (key & 0x0fffffff) | (7 << 28)) + good[4:],
+                    struct.pack('<I', (key & 0x0fffffff) | (1 << 28)) + b'\x02', good[:3]):
+            yield f'keyseq|U{bad.hex()};U{good.hex()};P'
+            yield f'keyseq|U{good.hex()};P;U{bad.hex()};U{(good + good).hex()};P'       # (what a refused decode leaves in the object is not prescribed: a good one follows)
     # the same object packed, ONE attribute changed to a value with the same hash() as the old one (-1 / -2; n / n + 2**61 - 1;
     # 0 / 2**61 - 1), packed again: whatever is remembered about the object must not be keyed on hashes
     M = (1 << 61) - 1
@@ -1720,10 +1779,24 @@ def real_valset(line):
             f = UbxCfgValSetAction([objs[int(k)] for k in p[3].split(',')])
             f.pack()
             return bytes(f.data).hex()
+        if p[0] == 'valsetagain':
+            # one frame encoded, one of its items changed through the reference the caller kept (or handed out by the frame), encoded
+            # again: the second encoding is the one looked at - the new value, or the refusal the new value deserves
+            objs = [CfgKeyData('x', g, i, b, v, s) for g, i, b, s, v in parse_items(p[1])]
+            f = UbxCfgValSetAction(objs)
+            f.pack()
+            if p[4] == '1':
+                f.to_bytes()
+            k = int(p[2])
+            (objs[k] if p[5] == '0' else f.get(f'data{k}')).value = int(p[3])
+            f.pack()
+            return bytes(f.data).hex()
         if p[0] == 'valsetfrom':
             # a VALSET built from items TAKEN OUT of a decoded VALGET response (d<k>), in any order, mixed with new ones (n<spec>) - the
             # read-modify-write of the generation-9 receivers; both frames are rendered afterwards
             res = UbxCfgValGet.construct(bytearray(bytes.fromhex(p[1])))
+            if len(p) > 3 and p[3] == 'render':
+                str(res)                                 # the response is printed when it arrives, before anything is taken out of it
             got = [it for it in ordered_items(res) if isinstance(it, CfgKeyData)]
             chosen = []
             for e in p[2].split(';'):
@@ -1736,7 +1809,11 @@ def real_valset(line):
             f.pack()
             if len(p) > 3 and p[3] == 'render':          # (asked by the oracle of C19)
                 try:
-                    return 'ok' if str(f) and str(res) else 'empty'
+                    text = str(f)
+                    missing = [f'data{k}' for k in range(len(chosen)) if f'data{k}:' not in text]
+                    if missing or f.NAME not in text:
+                        return 'missing-in-text:' + ','.join(missing or [f.NAME])
+                    return 'ok' if str(res) else 'empty'
                 except Exception as e:
                     return 'EXC:' + exc_name(e)
             return bytes(f.data).hex()
@@ -1793,6 +1870,11 @@ def model_line_valset(line):
     if p[0] == 'valsetreuse':
         specs = p[1].split(';')
         return 'valset|' + ';'.join(specs[int(k)] for k in p[3].split(','))
+    if p[0] == 'valsetagain':
+        specs = p[1].split(';')
+        g, i, b, sg, _ = specs[int(p[2])].split(',')
+        specs[int(p[2])] = f'{g},{i},{b},{sg},{p[3]}'
+        return 'valset|' + ';'.join(specs)
     if p[0] == 'valsetfrom':
         # what the decoded items are is said by the reference decoder
         data, items = bytes.fromhex(p[1])[4:], []
@@ -1912,6 +1994,15 @@ def gen_valset(rng, n, profile):
         sel1 = rng.sample(range(cnt), rng.randrange(1, cnt + 1))
         sel2 = rng.sample(range(cnt), rng.randrange(1, cnt + 1))
         yield 'valsetreuse|' + ';'.join(items) + '|' + ','.join(map(str, sel1)) + '|' + ','.join(map(str, sel2))
+    for _ in range(max(6, n // 5)):
+        # encoded, one item's value changed behind the frame's back, encoded again
+        cnt = rng.choice([1, 2, 3, 5])
+        items = [item() for _ in range(cnt)]
+        k = rng.randrange(cnt)
+        b = int(items[k].split(',')[2])
+        w = max(b, 8)
+        nv = rng.choice([0, 1, 2, (1 << (w - 1)) - 1, 1 << (w - 1), (1 << w) - 1, 1 << w, -1, -(1 << (w - 1)) - 1, rng.randrange(1 << w)])
+        yield f'valsetagain|{";".join(items)}|{k}|{nv}|{rng.randrange(2)}|{rng.randrange(2)}'
     for _ in range(max(6, n // 6)):
         npairs = rng.choice([2, 3, 4, 6])
         pl = bytearray([1, 0, 0, 0])
